@@ -279,4 +279,29 @@ func pathVarsThroughType(emit emitFn) {
 			emit("path-vars", singleJob(fmt.Sprintf("through-type-%d-%d", n, level), []byte(through), false))
 		}
 	}
+	// two parameters: one whose rule needs something of the project (an ENUM by name, a user type), the other one typed - the type
+	// of the second must not depend on whether the first can be read on its own; the declarations stand before or after the use
+	firsts := []string{"\"id\": \"x\" // {enum: @pe}", "\"id\": 12 // {type: \"@pt\"}", "\"id\": \"y\" // {enum: [\"x\", \"y\"]}"}
+	seconds := []string{"\"k\": \"x@y.z\" // {type: \"email\"}", "\"k\": 1 // {or: [\"integer\", \"string\"]}", "\"k\": 2.5 // {type: \"decimal\", precision: 1}", "\"k\": \"2021-01-02\" // {type: \"date\"}"}
+	n := len(pathVarProps)
+	for _, f := range firsts {
+		for _, sd := range seconds {
+			for order := 0; order < 2; order++ {
+				n++
+				props := "    " + strings.Replace(f, " // ", ", // ", 1) + "\n    " + sd // (the comma stands before the annotation)
+				head, rest := "URL /pv2/{id}/x/{k}\n", "  GET\n    200 any\n"
+				decls := tail
+				direct := "JSIGHT 0.3\n" + head + "  Path\n    {\n  " + props + "\n    }\n" + rest
+				through := "JSIGHT 0.3\n" + head + "  Path\n    @pv\n" + rest
+				typ := "TYPE @pv\n  {\n" + props + "\n  }\n"
+				if order == 0 {
+					direct, through = direct+decls, through+decls+typ
+				} else {
+					direct, through = strings.Replace(direct, "JSIGHT 0.3\n", "JSIGHT 0.3\n"+decls, 1), strings.Replace(through, "JSIGHT 0.3\n", "JSIGHT 0.3\n"+typ+decls, 1)
+				}
+				emit("path-vars", singleJob(fmt.Sprintf("direct-%d-%d", n, order), []byte(direct), false))
+				emit("path-vars", singleJob(fmt.Sprintf("through-type-%d-%d", n, order), []byte(through), false))
+			}
+		}
+	}
 }
